@@ -105,7 +105,7 @@ func newCarrier(name string, desc *grpc.ServiceDesc, svc interface{}, o carrierO
 			h = mux
 		}
 		c.HTTPHandler = h
-		lis := bufconn.Listen(bufSize)
+		lis := newMemListener()
 		srv := &http.Server{Handler: h}
 		go srv.Serve(lis)
 		tr := &http.Transport{
